@@ -54,6 +54,49 @@ PLAN = {
         trusted_base=_TB_IT),
 }
 
+_TB_MD = ["pyvc encoder (A-ENC, audited)", "z3 / cvc5 (A-SMT)", "pydantic parse/dump and validators (A-PYD)",
+          "POSIX file semantics (A-FS), lexical paths (A-SYMLINK)", "hash libraries (A-HASH), file reads (A-IO)",
+          "tree induction lemma (A-LEMMA-TREE, stated)", "merge_shard_infos / DatasetWriting.write_config / write_multiprocessing: bounded stand-in (history sweeps), not proved"]
+_MD = ["A-ENC", "A-SMT", "A-PYD", "A-FS", "A-SYMLINK", "A-HASH", "A-IO", "A-STD", "A-TREE", "A-LEMMA-TREE"]
+PLAN.update({
+    "C01": dict(level="other", assumptions=["A-ENC", "A-SMT", "A-NP", "A-NPZ", "A-TF", "A-CODEC", "A-FB", "A-RUST", "A-READER"],
+        explanation="proof part: sedpack's glue around the libraries: the codec tables pair every compression name with inverse functions; the FlatBuffers writer stores the little-endian C-order bytes of the safely cast value (byte-order branch table proved against an LE specification) and the reader decodes with the inverse composition; the npz writer buffers an independent copy per declared attribute; the TFRecord encoder checks names / shapes / dtype kinds. Not proved: the numeric behaviour of numpy / flatbuffers / TensorFlow / codecs (assumed algebra, audited by a bounded bit-pattern round-trip matrix over formats x compressions x dtypes x ranks x layouts x readers)",
+        trusted_base=["pyvc encoder", "z3/cvc5", "numpy / flatbuffers / TensorFlow / codec behaviour (A-NP, A-NPZ, A-TF, A-CODEC, A-FB; audited, bounded)", "native reader (A-RUST)"]),
+    "C04": dict(level="other", assumptions=_MD,
+        explanation="proof part: representation invariant (every list document on disk valid, locally exact, naming only complete files: DISK_OK; every ShardListInfo exact for its file: INFO_EXACT) proved to be preserved by Shard.write / Shard.close / close_shard / write_example / DatasetFiller.__exit__ / _update_infos / ShardsList.write_config / load_or_create for arbitrary prior state (induction step over sessions); counts = records accepted by the writer. Bounded stand-in (NOT proved): merge_shard_infos and DatasetWriting.write_config (grouping + recursion outside the engine's subset) are checked by fixed + random session histories with an independent audit of the whole tree",
+        trusted_base=_TB_MD),
+    "C05": dict(level="other", assumptions=_MD,
+        explanation="proof part (detection): check() returning normally implies: supplied description checksums match; for every split the list file and, recursively, EVERY child list has the recorded digests (SUBOK, defined by recursion over the finite tree); EVERY file info of EVERY shard of every split matches, with the dataset's configured algorithms (coverage obligations per loop); hash_checksums proved to feed each hash exactly the file prefix read. Acceptance after every history rests on C04's invariant (merge part bounded). Bounded: tamper matrix over all reachable files",
+        trusted_base=_TB_MD),
+    "C06": dict(level="other", assumptions=_MD,
+        explanation="proof part: effect-order obligations on a ghost file system: safe_update_file opens only a fresh sibling name for writing, renames only a closed (complete) file into place, net effect = target complete with the new content; a list document is written only when every shard / child list it names is complete (LISTED_COMPLETE precondition of ShardsList.write_config, established by Shard.close before close_shard writes); writers' files complete at close. Not proved: tearing inside library writers (A-FS), merge / description order (bounded), power loss (outside the property). Bounded: directory snapshot after every file-system effect of continued sessions",
+        trusted_base=_TB_MD),
+    "C08": dict(level="other", assumptions=_MD,
+        explanation="proof part: a list already on disk is loaded and extended, never recreated (load_or_create / close_shard: new list = old list ++ [shard]); Dataset.create over an existing description raises with an unchanged effect counter and disk; untouched splits keep their entries. Bounded stand-in: the merge of sub-directory lists (merge_shard_infos) by session histories incl. reused / nested / prefix-named directories",
+        trusted_base=_TB_MD),
+    "C09": dict(level="other", assumptions=_MD + ["A-LEMMA-CONC"],
+        explanation="proof part: per-writer frames: a filler with auto_update_dataset=False never calls the dataset's write_config and leaves DatasetInfo.splits untouched; its lists live under its own relative path (validated SAFE); it hands back infos exact for the files it wrote. Not decided by contracts: OS process scheduling, pickling, the body of write_multiprocessing (comprehension / Pool plumbing outside the subset): bounded runs with real worker processes of skewed speeds",
+        trusted_base=_TB_MD),
+    "C10": dict(level="proof", assumptions=["A-ENC", "A-SMT", "A-PYD"],
+        explanation="object invariant of the filler context (0 <= written = recorded count = records accepted <= examples_per_shard, open shard per split, an empty open shard carries no label) preserved by write_example on every normal and exceptional path; close_shard requires >= 1 example; a shard closed by write_example is full unless the label changed (call-site obligation); __exit__ closes exactly the shards with written > 0",
+        trusted_base=["pyvc encoder", "z3/cvc5", "abstract writer contract (each concrete writer proved against it)"]),
+    "C11": dict(level="proof", assumptions=["A-ENC", "A-SMT", "A-STD"],
+        explanation="ownership contract of write_example: the label stored equals the value passed; the stored dict object is never the caller's object (fresh deep copy or the object stored before), so the environment cannot change it; the label of a shard that stays open never changes once set",
+        trusted_base=["pyvc encoder", "z3/cvc5", "copy.deepcopy returns an equal, disjoint object (A-STD)"]),
+    "C16": dict(level="proof", assumptions=["A-ENC", "A-SMT", "A-HASH", "A-IO"],
+        explanation="hash_checksums: loop invariant 'every hash object has been fed exactly the file prefix read so far' for symbolic file length and buffer size; result[j] = digest under hashes[j] of the whole file; name -> algorithm map of all 13 names; every site that stores a digest passes the dataset's configured algorithm tuple and the path of the file it names (call-site obligations)",
+        trusted_base=["pyvc encoder", "z3/cvc5", "hashlib / xxhash (A-HASH, audited)", "readinto (A-IO)"]),
+    "C17": dict(level="proof", assumptions=["A-ENC", "A-SMT", "A-PYD", "A-SYMLINK"],
+        explanation="validators proved: normal return => relative and '..'-free (SAFE) (+ file name); the filler's sub-directory option likewise; every file-system access of the functions under contract with a declared root is proved to stay lexically inside it (fs-inside-root obligations), given that parsed documents satisfy the validators (A-PYD)",
+        trusted_base=["pyvc encoder", "z3/cvc5", "lexical path model (audited against pathlib)", "pydantic runs validators on nested models (A-PYD)"]),
+    "C18": dict(level="proof", assumptions=["A-ENC", "A-SMT", "A-NP", "A-TF", "A-FB"],
+        explanation="exceptional postconditions 'state unchanged' proved for ShardWriterBase.write, the three _write implementations (example list / per-attribute buffers / records handed to TFRecordWriter), Shard.write and write_example; normal postconditions: shapes checked before storing, safe cast (fb), exactly the declared names and no object dtype (npz), names / shapes / dtype kinds / supported dtypes (tfrec). Library effects (builder, tf) assumed",
+        trusted_base=["pyvc encoder", "z3/cvc5", "library calls do not partially store (A-FB, A-TF)", "numpy dtype / shape reporting (A-NP)"]),
+    "C20": dict(level="other", assumptions=["A-ENC", "A-SMT", "A-PYD", "A-SEMVER", "A-SYMLINK"],
+        explanation="proof part: version gate (loads iff recorded version <= running version under semver compare), description returned = document on disk, write and load use the same config path, every stored path is relative (SAFE) so the root only enters through self.path. Assumed + audited (bounded): pydantic JSON round trip of arbitrary descriptions; relocation runs",
+        trusted_base=["pyvc encoder", "z3/cvc5", "semver (A-SEMVER)", "pydantic JSON round trip (A-PYD, audited)"]),
+})
+
 NOT_APPLICABLE = {
     "C15": "Rust reader vs Python reader under every thread timing: no deductive verifier for Rust is installed (no Verus/Kani/Creusot/Prusti) and the quantifier is over native thread schedules, which function contracts do not decide; the native reader is an audited assumption (A-RUST) of C02/C03/C07/C14/C19 instead",
 }
